@@ -61,7 +61,7 @@ func armorBarePredicate(line, ans, base string, regular bool) string {
 		}
 	}
 	f := strings.Fields(line)
-	sink := f[len(f)-2]
+	sink := sinkBits(f[len(f)-2])
 	nTried := 0
 	if tr := senderField(ans, "tried"); tr != "-" && tr != "" {
 		nTried = len(strings.Split(tr, "."))
@@ -134,6 +134,21 @@ func genArmorBareFaults(ctx *Ctx, emit func(Case)) {
 						Sample: map[string]interface{}{"stream": "armorbare", "underlying_writes": total, "fault_at": k, "sticky": sticky, "calls": senderField(out, "calls")},
 					})
 				}
+			}
+			// the failing write accepts a part of the word / separator / footer before failing
+			for k := r.Intn(3); k < total; k += 1 + total/ctx.N(6, 60) {
+				sticky := r.Bool()
+				line := prefix + " " + sinkString(k, sticky, total) + partSuffix(r, sticky) + " " + ops
+				out := goExec(line)
+				base := base
+				emit(Case{Stream: "sender.fault.armorbare.partial", Line: line, GoOut: out,
+					Branch: fmt.Sprintf("ops%d/sticky=%v/%s", oi, sticky, callShape(senderField(out, "calls"))),
+					Direct: func() string {
+						if m := armorBarePredicate(line, out, base, regular); m != "" {
+							return m
+						}
+						return senderPredicate(line, out, base, regular)
+					}})
 			}
 			// two separate transient faults: the second one is never reached (the stream is dead)
 			if total > 6 {
